@@ -69,3 +69,30 @@ def describe_operand(o):
     if o[0] == "u":
         return "unit %s" % o[1]
     return "number %s" % o[1]
+
+
+def rogue_converter_sub(chk, rng, w, count="worlds with a deviating converter "
+                        "registered on a type with reference unit"):
+    """A (steps, judge) pair for a world program: registers, on one type WITH
+    a reference unit, a converter callable that answers every ordered pair of
+    that type's units with a factor that contradicts the scales.  For such
+    types conversion is defined by the scales (C01); a converter is only for
+    what the scales cannot answer.  Returns None if the world has no such
+    type."""
+    from .cases import V, M
+    cands = [t for t in w.types.values()
+             if t.has_ref and len(w.units_of(t.name)) >= 2]
+    if not cands:
+        return None
+    t = rng.choice(cands)
+    us = [u.sym for u in w.units_of(t.name)]
+    table = [[a, b, ["i", 42], ["i", 1]] for a in us for b in us if a != b]
+    steps = [{"id": "$rogue", "e": ["convfn", {"name": "rogue",
+                                               "table": table}]},
+             {"k": "rogue", "e": M(V(t.name), "register_converter",
+                                   V("$rogue"))}]
+
+    def judge(obs):
+        if (obs or {}).get("rogue", {}).get("k") != "E":
+            chk.count(count)
+    return steps, judge
